@@ -65,6 +65,98 @@ fn token_case(cs: &mut Cases, s: &str) {
             }
         }
     }
+    auth_case(cs, s);
+    param_case::<BearerToken>(cs, "bearer token", s, spec_token(s), |t| t.as_str().to_string());
+}
+
+/// the same string as a credential: `Authorization: Bearer <s>` and `Cookie: sess=<s>` through generated endpoints
+/// (conjure-http's `parse_header_auth` / `parse_cookie_auth`), for strings HTTP can carry in a header value
+fn auth_case(cs: &mut Cases, s: &str) {
+    if s.is_empty() || !s.bytes().all(|b| (0x21..0x7f).contains(&b)) {
+        return;
+    }
+    let ret = crate::svc::Ret { mixed: String::new(), aliases: vec![], set: Default::default(), bin: vec![], map: Default::default(), opt_str: None, doubles_json: "{\"d\":1.0,\"da\":2.0,\"inner\":{\"x\":0.5}}".into(), list: vec![], dmap: Default::default() };
+    let valid = spec_token(s);
+    let routes: [(&str, crate::svc::RawReq, String); 2] = [
+        ("optBinary", crate::svc::RawReq { path_params: vec![], target: "/v/optBinary?present=false".into(), headers: vec![("authorization".into(), format!("Bearer {}", s).into_bytes())], body: vec![] }, format!("optBinary(auth={:?}, present=false)", s)),
+        ("body", crate::svc::RawReq { path_params: vec![], target: "/v/body".into(), headers: vec![("cookie".into(), format!("sess={}", s).into_bytes()), ("content-type".into(), b"application/json".to_vec())], body: vec![b"{\"a\":1,\"b\":\"x\"}".to_vec()] }, format!("body(auth={:?}, ", s)),
+    ];
+    for (ep, req, want) in routes {
+        let (ep2, ret2) = (ep.to_string(), ret.clone());
+        let r = guarded(move || crate::svc::call_sync(&ep2, &req, &ret2));
+        cs.push(if valid { "token:auth:valid" } else { "token:auth:invalid" }, "noop".into(), "noop".into(), true, format!("bearer token {:?} as the credential of `{}`", s, ep));
+        match r {
+            Err(p) => cs.fail_last("token:auth:panic", p),
+            Ok(Err(e)) => cs.fail_last("token:auth:harness", e),
+            Ok(Ok(o)) => match (&o.result, valid) {
+                (Ok(_), true) => {
+                    if o.calls.len() != 1 || !o.calls[0].starts_with(&want) {
+                        cs.fail_last("token:auth:altered", format!("the valid token {:?} sent as the credential of `{}` reaches the handler as {:?}", s, ep, o.calls));
+                    }
+                }
+                (Ok(_), false) => cs.fail_last("token:auth:invalid-accepted", format!("{:?} is not a bearer token but `{}` accepts it as its credential: {:?}", s, ep, o.calls)),
+                (Err(e), true) => cs.fail_last("token:auth:valid-rejected", format!("the valid token {:?} is rejected as the credential of `{}`: {} {}", s, ep, e.code, e.cause)),
+                (Err(_), false) => {
+                    if !o.calls.is_empty() {
+                        cs.fail_last("token:auth:handler-ran", format!("handler invoked although the credential {:?} was rejected", s));
+                    }
+                }
+            },
+        }
+    }
+}
+
+/// the string as a path and as a query parameter of type bearertoken / rid: what a generated client writes for it
+/// (`UriBuilder`) decoded by what a generated endpoint uses (`path_param` / `query_param` with `FromPlainDecoder`)
+fn param_case<T>(cs: &mut Cases, what: &str, s: &str, valid: bool, text_of: impl Fn(&T) -> String)
+where
+    T: FromPlain + 'static,
+    T::Err: Into<Box<dyn std::error::Error + Sync + Send>>,
+{
+    use conjure_http::private::{parse_query_params, path_param, query_param, UriBuilder};
+    use conjure_http::server::conjure::FromPlainDecoder;
+    use conjure_http::server::ConjureRuntime;
+    if s.len() > 40 {
+        return;
+    }
+    let owned = s.to_string();
+    let r = guarded(move || {
+        let mut b = UriBuilder::new();
+        b.push_literal("/t");
+        b.push_path_parameter(&owned);
+        b.push_query_parameter("q", &owned);
+        let uri = b.build();
+        let rt = ConjureRuntime::new();
+        let raw = uri.path().split('/').nth(2).unwrap_or("").to_string();
+        let mut req = http::Request::new(());
+        *req.uri_mut() = uri.clone();
+        let mut pp = conjure_http::PathParams::new();
+        pp.insert("p", raw);
+        req.extensions_mut().insert(pp);
+        let (parts, _) = req.into_parts();
+        let p = path_param::<T, FromPlainDecoder>(&rt, &parts, "p", "p").map_err(|e| e.cause().to_string());
+        let qp = parse_query_params(&parts);
+        let q = query_param::<T, FromPlainDecoder>(&rt, &qp, "q", "q").map_err(|e| e.cause().to_string());
+        (p, q)
+    });
+    cs.push(if valid { "param:valid" } else { "param:invalid" }, "noop".into(), "noop".into(), true, format!("{} {:?} as a path and as a query parameter", what, s));
+    match r {
+        Err(p) => cs.fail_last("param:panic", p),
+        Ok((p, q)) => {
+            for (kind, r) in [("path", p), ("query", q)] {
+                match (r, valid) {
+                    (Ok(t), true) => {
+                        if text_of(&t) != s {
+                            cs.fail_last("param:altered", format!("the {} {:?} sent as a {} parameter arrives as {:?}", what, s, kind, text_of(&t)));
+                        }
+                    }
+                    (Ok(t), false) => cs.fail_last("param:invalid-accepted", format!("{:?} is not a {} but is accepted as a {} parameter ({:?})", s, what, kind, text_of(&t))),
+                    (Err(e), true) => cs.fail_last("param:valid-rejected", format!("the valid {} {:?} is rejected as a {} parameter: {}", what, s, kind, e)),
+                    (Err(_), false) => {}
+                }
+            }
+        }
+    }
 }
 
 fn svc_ok(s: &str) -> bool {
@@ -146,6 +238,7 @@ fn rid_case(cs: &mut Cases, s: &str) {
             }
         }
     }
+    param_case::<ResourceIdentifier>(cs, "resource identifier", s, spec_rid(s).is_some(), |t| t.as_str().to_string());
 }
 
 fn ridc_case(cs: &mut Cases, a: &str, b: &str, c: &str, d: &str) {
@@ -302,4 +395,4 @@ pub fn cases(seed: u64, tier: Tier) -> Cases {
     cs
 }
 
-pub const RULE: &str = "tokens: all strings of length <= 4 (quick) / 5 (thorough) over the 14-character boundary alphabet {a z A 0 9 - _ . ~ + / = \\n é}, 20 hand-picked edge strings, every code point up to U+017F and every 5th (quick) / every (thorough) code point of the rest of the BMP alone and inside a token, seeded strings of length 1..40 with padding; each through from_str, new, from_plain, server JSON and client JSON deserialization, compared with each other, with the grammar ^[A-Za-z0-9\\-._~+/]+=*$ re-implemented in the harness, and with the Lean model. rids: all strings ri.<w>, |w| <= 6 / 7 over {a A 0 - _ .}; all strings of length <= 4 / 6 over {r i . a \\n R}; every single-character insertion/replacement/deletion of 5 valid rids; seeded component-wise strings; each through from_str, new, from_plain, server and client JSON, with as_str/Display/to_plain/JSON rendering and the four accessors compared to the grammar's split. from_components: all 4-tuples over 7 / 12 short components plus seeded ones. Non-trivial = longer than one character (tokens) / three characters (rids) or valid; distinct = distinct operation lines.";
+pub const RULE: &str = "tokens: all strings of length <= 4 (quick) / 5 (thorough) over the 14-character boundary alphabet {a z A 0 9 - _ . ~ + / = \\n é}, 20 hand-picked edge strings, every code point up to U+017F and every 5th (quick) / every (thorough) code point of the rest of the BMP alone and inside a token, seeded strings of length 1..40 with padding; each through from_str, new, from_plain, server JSON and client JSON deserialization, and as the credential of a header-auth and of a cookie-auth generated endpoint (strings HTTP can carry), compared with each other, with the grammar ^[A-Za-z0-9\\-._~+/]+=*$ re-implemented in the harness, and with the Lean model. rids: all strings ri.<w>, |w| <= 6 / 7 over {a A 0 - _ .}; all strings of length <= 4 / 6 over {r i . a \\n R}; every single-character insertion/replacement/deletion of 5 valid rids; seeded component-wise strings; each through from_str, new, from_plain, server and client JSON, with as_str/Display/to_plain/JSON rendering and the four accessors compared to the grammar's split. from_components: all 4-tuples over 7 / 12 short components plus seeded ones. Non-trivial = longer than one character (tokens) / three characters (rids) or valid; distinct = distinct operation lines.";
